@@ -74,6 +74,7 @@ class Universe:
         self.ever_kinds: dict[str, set] = {}
         self.record_inodes = False
         self.held: list = []  # [fd, operations left until it is closed]
+        self.real_delete_below = None
         self.graveyard = None  # if set: deletions are renames into this directory, so inode numbers are never re-used
         self._grave_n = 0
 
@@ -144,8 +145,12 @@ class Universe:
                     pass
                 self.held.remove(h)
 
+    def _really(self, path):
+        """graveyard regime with an exception: entries below `real_delete_below` are really deleted"""
+        return self.real_delete_below is not None and path.startswith(self.real_delete_below + os.sep)
+
     def _delete(self, path, isdir):
-        if self.graveyard:
+        if self.graveyard and not self._really(path):
             self._grave_n += 1
             os.rename(path, os.path.join(self.graveyard, f"g{self._grave_n}"))
         elif isdir:
@@ -247,7 +252,7 @@ class Universe:
             p = op[1]
             sub = [p] + m.kids(p)
             rec["desc"] = [(q, m.t[q]) for q in sub]
-            if self.graveyard:
+            if self.graveyard and not self._really(A(p)):
                 self._delete(A(p), m.t[p] == "d")
             else:
                 for q in sorted(sub, key=lambda q: -q.count("/")):
